@@ -172,6 +172,9 @@ func (s *scriptedFilter) OnReceive(ctx context.Context, headers api.HeaderMap, b
 	case "hijackbody":
 		s.rh.SendHijackReplyWithBody(403, headers, "filter-body-"+s.f.name)
 		return api.StreamFilterStop
+	case "hijacknil":
+		s.rh.SendHijackReply(403, nil) // (the handler documents nil headers as "use a default header")
+		return api.StreamFilterStop
 	case "direct":
 		body := buffer.NewIoBufferString("direct-" + s.f.name)
 		switch headers.(type) {
@@ -246,7 +249,7 @@ func expectedRecvCalls(filters []FilterSpec, verdict map[string]string) (calls [
 				v = "continue"
 			}
 			switch v {
-			case "hijack", "hijackbody", "direct":
+			case "hijack", "hijackbody", "direct", "hijacknil":
 				return calls, "answered:" + f.Name + ":" + v
 			case "terminate":
 				return calls, "terminated"
